@@ -9,6 +9,7 @@ import (
 	"os"
 	"os/exec"
 	"reflect"
+	"sort"
 	"strings"
 	"testing"
 
@@ -142,6 +143,18 @@ func genC13(rt *rapid.T) c13Case {
 	if rapid.IntRange(0, 2).Draw(rt, "hostOverride") == 0 {
 		c.Host = "override.example:8443"
 	}
+	if rapid.IntRange(0, 3).Draw(rt, "spellings") == 0 {
+		// the caller's map holds one header name under several spellings: every value is sent
+		c.Header["X-Trace"] = []string{"a"}
+		c.Header["x-trace"] = []string{"b"}
+		if rapid.Bool().Draw(rt, "threeSpellings") {
+			c.Header["X-TRACE"] = []string{"c", "d"}
+		}
+	}
+	if rapid.IntRange(0, 3).Draw(rt, "callerProtoHeader") == 0 {
+		// a Sec-WebSocket-Protocol entry in the caller's header: replaced on the wire when Subprotocols are given
+		c.Header.Set("Sec-WebSocket-Protocol", "legacy, header-only")
+	}
 	r := &c.Resp
 	r.Status, r.Conn, r.Upgr, r.Accept, r.Proto, r.ExtKind = 101, []string{"Upgrade"}, []string{"websocket"}, "correct", "none", "none"
 	// benign
@@ -185,7 +198,7 @@ func genC13(rt *rapid.T) c13Case {
 			how = rapid.SampledFrom([]string{"other-key", "missing", "case-changed", "truncated"}).Draw(rt, "acceptBad")
 			r.Accept = how
 		case "proto":
-			how = rapid.SampledFrom([]string{"unrequested", "requested-case", "empty"}).Draw(rt, "protoBad")
+			how = rapid.SampledFrom([]string{"unrequested", "requested-case", "empty", "header-only"}).Draw(rt, "protoBad")
 			r.Proto = how
 		case "ext":
 			how = rapid.SampledFrom(c13ExtKinds).Draw(rt, "extKind")
@@ -243,6 +256,8 @@ func doC13(c c13Case) (conn *websocket.Conn, err error, seen c13Seen, respProto 
 			}
 		case "unrequested":
 			respProto = "not-asked-for"
+		case "header-only":
+			respProto = "header-only" // named in the caller's header entry (if there is one), never in Subprotocols
 		}
 		if respProto != "" {
 			h.Set("Sec-WebSocket-Protocol", respProto)
@@ -305,13 +320,29 @@ func checkC13Request(c c13Case, r *http.Request) string {
 	if b, err := base64.StdEncoding.DecodeString(keys[0]); err != nil || len(b) != 16 {
 		return "key does not decode to 16 bytes"
 	}
-	for k, vs := range c.Header {
+	group := func(h http.Header) map[string][]string {
+		g := map[string][]string{}
+		for k, vs := range h {
+			ck := http.CanonicalHeaderKey(k)
+			g[ck] = append(g[ck], vs...)
+		}
+		for _, vs := range g {
+			sort.Strings(vs)
+		}
+		return g
+	}
+	sent := group(r.Header)
+	for k, vs := range group(c.Header) {
 		switch k {
 		case "Connection", "Upgrade", "Sec-Websocket-Version", "Sec-Websocket-Key":
 			continue
+		case "Sec-Websocket-Protocol":
+			if len(c.Protos) > 0 {
+				continue // replaced by Subprotocols, checked below
+			}
 		}
-		if got := r.Header.Values(k); fmt.Sprint(got) != fmt.Sprint(vs) {
-			return fmt.Sprintf("caller header %s: sent %q, want %q", k, got, vs)
+		if got := sent[k]; fmt.Sprint(got) != fmt.Sprint(vs) {
+			return fmt.Sprintf("caller header %s (all spellings): sent %q, want %q", k, got, vs)
 		}
 	}
 	if c.Host != "" && r.Host != c.Host {
@@ -321,7 +352,7 @@ func checkC13Request(c c13Case, r *http.Request) string {
 		if got := ref.Tokens(r.Header.Values("Sec-WebSocket-Protocol")); fmt.Sprint(got) != fmt.Sprint(c.Protos) {
 			return fmt.Sprintf("subprotocols sent %q, want %q", got, c.Protos)
 		}
-	} else if len(r.Header.Values("Sec-WebSocket-Protocol")) != 0 {
+	} else if len(r.Header.Values("Sec-WebSocket-Protocol")) != 0 && len(c.Header.Values("Sec-WebSocket-Protocol")) == 0 {
 		return "Sec-WebSocket-Protocol sent although none requested"
 	}
 	exts := ref.ParseExtensions(r.Header.Values("Sec-WebSocket-Extensions"))
@@ -361,6 +392,11 @@ func c13Verdict(c c13Case) string {
 	switch r.Proto {
 	case "unrequested":
 		return "bad"
+	case "header-only":
+		if len(c.Protos) > 0 || len(c.Header.Values("Sec-WebSocket-Protocol")) == 0 {
+			return "bad" // it was not on the wire: Subprotocols replaced the header entry, or there was none
+		}
+		verdict = "either" // it was on the wire, but not through Subprotocols
 	case "requested-case":
 		if len(c.Protos) == 0 {
 			return "bad"
